@@ -268,6 +268,19 @@ func extractMatch(repo, out string) ([]string, error) {
 		return nil, err
 	}
 	sb.WriteString(hm)
+	// the condition of the BOM top-up loop of (*Tokenizer).Load (known finding
+	// C17-empty-first-read-bom, flag emptyFirstReadNoBom of lean/OjgVerif/Match/Tokenizer.lean)
+	for _, pkg := range []string{"oj", "sen"} {
+		cond, err := mtLoadTopUpCond(repo, pkg)
+		if err != nil {
+			return nil, err
+		}
+		q, err := mhLeanString(cond)
+		if err != nil {
+			return nil, err
+		}
+		fmt.Fprintf(&sb, "\n/-- condition of the byte-order-mark top-up loop of (*%s.Tokenizer).Load -/\ndef %sLoadTopUpCond : String := %s\n", pkg, pkg, q)
+	}
 	sb.WriteString("\nend OjgVerif.Gen.MatchFacts\n")
 	path := filepath.Join(out, "MatchFacts.lean")
 	changed, err := writeIfChanged(path, sb.String())
@@ -278,6 +291,50 @@ func extractMatch(repo, out string) ([]string, error) {
 		return []string{"MatchFacts.lean"}, nil
 	}
 	return nil, nil
+}
+
+// mtLoadTopUpCond: the condition of the one `for` loop of (*Tokenizer).Load in <pkg>/tokenizer.go that
+// mentions 0xEF (the loop that reads on until a byte order mark can be seen whole), as Go source.
+func mtLoadTopUpCond(repo, pkg string) (string, error) {
+	fset := token.NewFileSet()
+	f, err := parser.ParseFile(fset, filepath.Join(repo, pkg, "tokenizer.go"), nil, 0)
+	if err != nil {
+		return "", fmt.Errorf("match: %v", err)
+	}
+	found := ""
+	n := 0
+	for _, d := range f.Decls {
+		fd, ok := d.(*ast.FuncDecl)
+		if !ok || fd.Name.Name != "Load" || fd.Body == nil || mhRecvName(fd) != "Tokenizer" {
+			continue
+		}
+		var perr error
+		ast.Inspect(fd.Body, func(x ast.Node) bool {
+			fs, ok := x.(*ast.ForStmt)
+			if !ok || fs.Cond == nil {
+				return true
+			}
+			var buf bytes.Buffer
+			cfg := printer.Config{Mode: printer.RawFormat, Tabwidth: 8}
+			if err := cfg.Fprint(&buf, fset, fs.Cond); err != nil {
+				perr = err
+				return false
+			}
+			txt := strings.TrimSpace(mhNewline.ReplaceAllString(buf.String(), " "))
+			if strings.Contains(txt, "0xEF") {
+				found = txt
+				n++
+			}
+			return true
+		})
+		if perr != nil {
+			return "", fmt.Errorf("match: cannot print a loop condition of %s/tokenizer.go: %v", pkg, perr)
+		}
+	}
+	if n != 1 {
+		return "", fmt.Errorf("match: (*Tokenizer).Load of %s/tokenizer.go has %d loops with a 0xEF test, expected 1", pkg, n)
+	}
+	return found, nil
 }
 
 // ---- statement-level rendering of the MatchHandler methods ----
